@@ -9,6 +9,9 @@ import (
 	"elkverif/internal/elkrun"
 )
 
+// MaxSteps bounds the machine steps per program (runaway guard of the model).
+var MaxSteps = 3000
+
 type mismatch struct {
 	p   M
 	rr  *RealRun
@@ -27,13 +30,16 @@ func RunAndCompare(c *core.Ctx, progs []M, cfg string, batch int) error {
 func RunAndCompareCfg(c *core.Ctx, progs []M, cfg string, batch int, rcfg *elkrun.Cfg) error {
 	emitBatches(progs, batch)
 	t0 := time.Now()
-	mr, err := Predict(c, progs, cfg, 3000, 10*time.Minute)
+	mr, err := Predict(c, progs, cfg, MaxSteps, 10*time.Minute)
 	if err != nil {
 		return err
 	}
 	c.Logf("TLC: %d states generated, %d distinct, depth %d, %d behaviours, %.1fs", mr.TLC.Generated, mr.TLC.Distinct, mr.TLC.Depth, len(mr.Obs), time.Since(t0).Seconds())
-	c.CovAdd("states", int(mr.TLC.Distinct))
-	c.CovAdd("transitions", int(mr.TLC.Generated))
+	if !mr.counted {
+		mr.counted = true
+		c.CovAdd("states", int(mr.TLC.Distinct))
+		c.CovAdd("transitions", int(mr.TLC.Generated))
+	}
 	c.Cov("spec", "spec/ElkCore/ElkCore.tla + "+cfg+" (invariants checked on every state of every program's execution)")
 
 	pool := c.NewPool(c.Workers)
@@ -109,7 +115,7 @@ func RunAndCompareCfg(c *core.Ctx, progs []M, cfg string, batch int, rcfg *elkru
 			if len(todo) == 0 {
 				break
 			}
-			dr, err := Predict(c, todo, "Deviant.cfg", 3000, 20*time.Minute, dev)
+			dr, err := Predict(c, todo, "Deviant.cfg", MaxSteps, 20*time.Minute, dev)
 			if err != nil {
 				return err
 			}
